@@ -505,7 +505,10 @@ class World:
                 elif k == "gw_reconfigure":
                     self.gw.reconfigure(py2str_as_py3str=op[1], py3str_as_py2str=op[2])
                 elif k == "reconfigure":
-                    ch(op[1]).reconfigure(py2str_as_py3str=op[2], py3str_as_py2str=op[3])
+                    try:
+                        ch(op[1]).reconfigure(py2str_as_py3str=op[2], py3str_as_py2str=op[3])
+                    except OSError:
+                        pass  # the gateway has gone down meanwhile: nothing to reconfigure any more
                 elif k == "raise":
                     raise RuntimeError("BOOM in body")
                 elif k == "sysexit":
